@@ -8,6 +8,23 @@ def _mix(case):
     return mixture(case.get('env', {}), nr='two' if case.get('two_alphas') else 'one')
 
 
+def uniquac_k1(T, mix, x):
+    """(gamma_1, gamma_2) of known finding K1: Abrams-Prausnitz gamma_1 and the gamma_2 whose residual bracket reads
+    tau_12/(theta2'+theta1' tau_21) - tau_12/(theta1'+theta2' tau_12) (the pinned tree's expression)"""
+    c1, c2, u = mix.first_component.uniquac_constants, mix.second_component.uniquac_constants, mix.uniquac_params
+    x1, x2 = x, 1 - x
+    ps = x1 * c1.r + x2 * c2.r; phi1, phi2 = x1 * c1.r / ps, x2 * c2.r / ps
+    tg = x1 * c1.q_geometric + x2 * c2.q_geometric; th1, th2 = x1 * c1.q_geometric / tg, x2 * c2.q_geometric / tg
+    ti = x1 * c1.q_interaction + x2 * c2.q_interaction; t1, t2 = x1 * c1.q_interaction / ti, x2 * c2.q_interaction / ti
+    l1 = u.z / 2 * (c1.r - c1.q_geometric) - (c1.r - 1); l2 = u.z / 2 * (c2.r - c2.q_geometric) - (c2.r - 1)
+    tau12 = math.exp(-(u.alpha_12 + u.beta_12 / T) / T); tau21 = math.exp(-(u.alpha_21 + u.beta_21 / T) / T)
+    g1 = math.exp(math.log(phi1 / x1) + u.z / 2 * c1.q_geometric * math.log(th1 / phi1) + phi2 * (l1 - c1.r / c2.r * l2)
+                  - c1.q_interaction * math.log(t1 + t2 * tau21) + t2 * c1.q_interaction * (tau21 / (t1 + t2 * tau21) - tau12 / (t2 + t1 * tau12)))
+    g2 = math.exp(math.log(phi2 / x2) + u.z / 2 * c2.q_geometric * math.log(th2 / phi2) + phi1 * (l2 - c2.r / c1.r * l1)
+                  - c2.q_interaction * math.log(t2 + t1 * tau12) + t1 * c2.q_interaction * (tau12 / (t2 + t1 * tau21) - tau12 / (t1 + t2 * tau12)))
+    return g1, g2
+
+
 def check(case):
     import numpy
     from pyvaporation.mixtures import Composition, get_partial_pressures
@@ -25,7 +42,17 @@ def check(case):
     d1, d2 = (a[0] - b[0]) / (2 * h), (a[1] - b[1]) / (2 * h)
     gd = x * d1 + (1 - x) * d2
     if abs(gd) > 1e-5 * max(1.0, abs(x * d1), abs((1 - x) * d2)):
-        fails.append("Gibbs-Duhem residual %r at x1=%r T=%r (%s): x1*dlng1=%r x2*dlng2=%r" % (gd, x, T, model, x * d1, (1 - x) * d2))
+        tag = ""
+        if model == 'UNIQUAC':
+            # native fingerprint of known finding K1: the code's coefficients are exactly those of the recorded defect at x and x +- h
+            try:
+                same = True
+                for xx in (x, x + h, x - h):
+                    got = cac(T, mix, Composition(xx, 'molar'), model); k1 = uniquac_k1(T, mix, xx)
+                    same = same and abs(got[0] - k1[0]) <= 1e-9 * abs(k1[0]) and abs(got[1] - k1[1]) <= 1e-9 * abs(k1[1])
+                if same: tag = "KNOWN[K1] "
+            except Exception: pass
+        fails.append(tag + "Gibbs-Duhem residual %r at x1=%r T=%r (%s): x1*dlng1=%r x2*dlng2=%r" % (gd, x, T, model, x * d1, (1 - x) * d2))
     g_pure1 = cac(T, mix, Composition(1.0, 'molar'), model)[0]; g_pure2 = cac(T, mix, Composition(0.0, 'molar'), model)[1]
     tol = 1e-9 if model == 'NRTL' else 1e-3
     if abs(g_pure1 - 1) > tol: fails.append("gamma1 at x1=1 is %r" % g_pure1)
